@@ -16,6 +16,16 @@ CLAIMED = {
     technique='ast CFG rules on OP_CHECK_MULTISIG: success-edge consumption of the matched key (must-pass-through), exact verdict condition by linear-atom equivalence, operand-order agreement across VM / compiler / decompiler',
     text='Decides the structural clauses of the threshold claim: on the success edge of the inner check the matched key leaves the candidate set before the next signature (so two signatures by one key cannot both count), confirmed signatures are a set grown only on that edge, true is put exactly when all m are confirmed, (flags, m, n) order agrees between VM, compiler and decompiler, and the inner check gets the rewound allowed-flags tape. Order independence rests on a cryptographic fact and is not decided.',
     note='Trusted: CPython ast, tsa analyser.'),
+ 'C04': dict(
+    level='other', ref='DESIGN.md 4 C04',
+    technique='ast ordering rule on OP_MERKLEVAL (verify-class comparison with the tape root must directly precede OP_EVAL, no path around it) plus integrity typing of every builder template that evals (eval operand trusted or authenticated on every path)',
+    text='Decides the binding clause of C04 in its structural form: in the VM the supplied script reaches OP_EVAL only after a verifying comparison with the 32-byte tape root with nothing in between, the comparison primitives are verify-class, and in every builder template containing eval the operand is a template constant or authenticated (equal_verify against a trusted commitment / check_sig_stack-verify under a trusted key) on every path. Root formulas, completeness for every tree shape and pack/unpack round trips are value-level and not decided.',
+    note='Trusted: CPython ast, tsa analyser; hash ops assumed binding.'),
+ 'C05': dict(
+    level='other', ref='DESIGN.md 4 C05',
+    technique='ast CFG edge-dominance on OP_TAPROOT (eval only through the root-match edge, evaluated item is the hashed script, key path fed root + operand flags + plugins) and template typing of the non-native taproot lock',
+    text='Decides exactness of the two spend paths structurally: the committed script runs only on the edge where the recomputed point equals the popped root and it is the very item that was hashed; a mismatch puts false without evaluating; the key path checks under the root with the operand flags and the parent plugins; the non-native lock types with its eval operand authenticated against the trusted root and is stack-compatible with both witnesses. The algebraic identity of the root and native/non-native verdict equivalence are not decided.',
+    note='Trusted: CPython ast, tsa analyser; hash/point commitments assumed binding.'),
  'C06': dict(
     level='other', ref='DESIGN.md 4 C06',
     technique='ast typestate invariant over all sub-tape handlers (return-flag scoping), alias/copy classification of EVAL sub-tape fields, cross-table agreement query (VM table vs docs.md vs language_spec.md vs compiler/decompiler case labels)',
@@ -46,6 +56,21 @@ CLAIMED = {
     technique='ast termination argument (read-size kind classification per match arm, loop-progress and well-founded-recursion rules) plus sibling cross-check decompiler arms vs VM handler tape-read shapes and formatter/domain classification against the compiler helpers',
     text='Termination of decompile_script is decided as a structural proof on the current source: every read size in every arm (and in the generated soft-fork handler) is a non-negative constant or unsigned decode, every loop iteration consumes at least one byte, recursion is only on bytes read from the same tape, and Tape.read is bounded - hence the pointer strictly increases below len(script) and recursion is well founded. The round trip is decided only structurally: each arm reads exactly the operand shape its VM handler reads, operands reach the listing through injective formatters, and the printed domain is accepted by the compiler helper. Byte equality for every program is not decided.',
     note='Trusted: CPython ast, tsa analyser. Out of scope: decompiler handlers registered by third parties. Known finding: DIV_INT/MOD_INT lossy print.'),
+ 'C13': dict(
+    level='other', ref='DESIGN.md 4 C13-C15',
+    technique='static typing of the tapescript templates embedded in tools.py: template extraction from the builder ast (f-string holes with provenance), a stack-effect and integrity type system (trusted/untrusted/authenticated labels, authentication fixpoint at path end), arities cross-checked against abstract counting summaries of the real handlers',
+    text='Necessary structural conditions of "exactly the intended holder can unlock" for single-sig (both layouts), multisig, script-hash, graftroot and graftap: each lock is stack-compatible with its builder-made witness, with an arbitrary adversarial stack every signature-check key and every evaluated script is a template constant or authenticated against one and the verdict derives from a check, sigflags reaches every check and the signing op, every builder parameter is used. That the right trusted key is used, cross-pairing rejection and cryptography are not decided.',
+    note='Trusted: CPython ast, tsa analyser (template engine E6). Assumes hash/point commitments binding and fixed-length concatenated commitments.'),
+ 'C14': dict(
+    level='other', ref='DESIGN.md 4 C13-C15',
+    technique='same template type system: authentication of certificate slices through split/copy ancestry from a verified check_sig_stack message, time-window rules over the boolean sub-domain, recursion typed under a call-site-checked assumption',
+    text='Necessary structural conditions of the delegation locks: every certificate slice that decides something (delegate key, begin, end, may-delegate) descends from the message of a verified check_sig_stack under the authorising key, both window bounds are enforced with the negated upper bound after a verified lower bound, further delegation needs the authenticated flag, the recursive chain call is typed under an assumption checked at each call site, split offsets match the Certificate layout, no parsed field is dead. Certificate pack/unpack round trip and cryptography are not decided.',
+    note='Trusted: CPython ast, tsa analyser; ed25519 unforgeability.'),
+ 'C15': dict(
+    level='other', ref='DESIGN.md 4 C13-C15',
+    technique='same template type system plus path rules: refund key only behind a verified time check on int(time())+timeout, hash-lock idiom shape, sigflags and parameter plumbing',
+    text='Necessary structural conditions of the four HTLC locks and the PTLC lock: stack compatibility with the builder witnesses, keys trusted or authenticated by their hash commitment, the refund key accepted only on the path with a verified check_timestamp on int(time())+timeout and never on the claim arm, the claim arm selected by comparing the hash (with the builder hash size) of the witness preimage with the template digest, sigflags and every parameter plumbed. Which trusted key is the receiver and cryptography are not decided.',
+    note='Trusted: CPython ast, tsa analyser.'),
  'C16': dict(
     level='other', ref='DESIGN.md 4 C16',
     technique='ast decision-table extraction: CFG path conditions of the handler canonicalised to linear atoms and compared with the documented formula by exhaustive truth table; base;verify shape rule; (builders: template boolean domain)',
